@@ -10,8 +10,8 @@ type GenOpts struct {
 	InstrPct     int   // chance that the directive is instrumented (then tasks 50%)
 	Spellings    []int // allowed spellings (default: all safe ones)
 	Kinds        []TKind
-	WrapPct      int // chance that argument expressions are wrapped in rt.A
-	ShadowPct    int // chance that Params come from variables named like generated identifiers
+	WrapPct      int  // chance that argument expressions are wrapped in rt.A
+	ShadowPct    int  // chance that Params come from variables named like generated identifiers
 	NoInvoke     bool // every task has at least one output; leftovers go to Results
 	GenericPct   int
 	NoConcOption bool
